@@ -294,11 +294,14 @@ def run(w: World, rep: Report):
     fv = _flag_vars_from_tape(w, sg)
     for n in ast.walk(sg.node):
         if isinstance(n, ast.IfExp) and isinstance(n.test, ast.Name) and n.test.id in fv:
-            body = ast.unparse(n.body).replace(' ', '')
-            orelse = ast.unparse(n.orelse).replace(' ', '')
-            for f in fv:
-                if body == f"sig+{f}.to_bytes(1,'big')" and orelse == 'sig':
-                    ok = True
+            # <sigvar> + <flag>.to_bytes(1, 'big') if <flag> else <sigvar>   (whatever the local is called)
+            b, o = n.body, n.orelse
+            if isinstance(o, ast.Name) and isinstance(b, ast.BinOp) and isinstance(b.op, ast.Add) and \
+                    isinstance(b.left, ast.Name) and b.left.id == o.id and isinstance(b.right, ast.Call) and \
+                    isinstance(b.right.func, ast.Attribute) and b.right.func.attr == 'to_bytes' and \
+                    isinstance(b.right.func.value, ast.Name) and b.right.func.value.id in fv and \
+                    [getattr(a, 'value', None) for a in b.right.args] == [1, 'big'] and not b.right.keywords:
+                ok = True
     rep.check('C02.R3', f'functions.{sg.name}|flag-byte-appended-iff-nonzero', ok, line=sg.node.lineno, file=REL,
               why='' if ok else 'OP_SIGN does not append exactly its flag byte when (and only when) it is non-zero')
     # CHECK_SIG strips exactly the trailing byte when 65 long
